@@ -123,6 +123,22 @@ def lex_frame_obligations(repo="/repo"):
                     isinstance(v, ast.Name) and (v.id in state_fns or v.id in closures or (f.name == "_lex_string" and v.id == "state")))
                 if not ok:
                     bad.append(f"lex.py:{n.lineno} {f.name} returns {ast.unparse(v)}")
+    # 6. the alias the contract of tokenize() declares: lex() returns `lexer, lexer.tokens` (the object and ITS token list),
+    #    tokenize() unpacks that pair once and never rebinds either name
+    ok6 = False
+    for t in tree.body:
+        if isinstance(t, ast.FunctionDef) and t.name == "lex":
+            rets = [n for n in ast.walk(t) if isinstance(n, ast.Return)]
+            ok6 = (len(rets) == 1 and isinstance(rets[0].value, ast.Tuple) and len(rets[0].value.elts) == 2
+                   and isinstance(rets[0].value.elts[0], ast.Name) and ast.unparse(rets[0].value.elts[1]) == rets[0].value.elts[0].id + ".tokens")
+    binds = 0
+    for t in tree.body:
+        if isinstance(t, ast.FunctionDef) and t.name == "tokenize":
+            for n in ast.walk(t):
+                if isinstance(n, ast.Name) and isinstance(n.ctx, ast.Store) and n.id in ("tokens", "lexer"):
+                    binds += 1
+    out.append({"id": "lex:frame/tokenize-tokens-is-the-lexers-token-list", "status": "ok" if ok6 and binds == 2 else "violated",
+                "detail": [] if ok6 and binds == 2 else [f"lex() shape ok={ok6}, bindings of tokens/lexer in tokenize={binds}"]})
     # Lexer.run starts from lex_root and only ever assigns the result of a state call
     out.append({"id": "lex:frame/state-functions-return-state-functions-or-None", "status": "ok" if not bad else "violated", "detail": bad[:5]})
     return out
